@@ -18,12 +18,25 @@ theorem pp_width (a : PPArgs) (lay : Layout) (bpg : Nat) (hasLen : Bool)
        else match a.t2 with
          | none => ∃ c, ln.groups1 = [[c]]
          | some _ => ln.groups1.length = 1 ∧ ln.groups1.flatten.length * a.t1.fmt.bpc ≤ 24) := by
-  sorry
+  obtain ⟨hl, -⟩ := W_pp_ok ht h
+  intro ln hln
+  have hw := W_width hl ln hln
+  simp only [cfgOf] at hw
+  cases ht2 : a.t2 <;> simp only [ht2, Option.map] at hw ⊢ <;> exact hw
 
 /-- All lines of one printout have the same visible length (the final line is padded). -/
 theorem pp_lines_same_length (a : PPArgs) (lay : Layout) (h : pp a = .ok lay) :
     ∀ l1 ∈ lay.lines, ∀ l2 ∈ lay.lines, l1.visible.length = l2.visible.length := by
-  sorry
+  cases ht : processTokens a.t1 a.t2 with
+  | error e => simp [pp, ht] at h
+  | ok r =>
+    obtain ⟨bpg, hasLen⟩ := r
+    obtain ⟨hl, -⟩ := W_pp_ok ht h
+    obtain ⟨m, -, -, hlines⟩ := W_ppLines_lines hl
+    intro l1 h1 l2 h2
+    obtain ⟨-, -, -, -, -, -, -, hv1, -⟩ := hlines l1 h1
+    obtain ⟨-, -, -, -, -, -, -, hv2, -⟩ := hlines l2 h2
+    rw [hv1, hv2]
 
 /-- `pp_group_atomic`, textual form: the text of a line contains its groups whole, each in a field of
     `chars_per_group` characters, joined by the separator. -/
@@ -32,7 +45,17 @@ theorem pp_line_text (a : PPArgs) (lay : Layout) (bpg : Nat) (hasLen : Bool)
     ∀ ln ∈ lay.lines, ∃ pre post,
       ln.visible = pre ++ joinSep a.sep (ln.groups1.map
         (if a.lsb0 then padLeft (a.t1.fmt.b2c bpg) else padRight (a.t1.fmt.b2c bpg))) ++ post := by
-  sorry
+  obtain ⟨hl, -⟩ := W_pp_ok ht h
+  obtain ⟨m, -, -, hlines⟩ := W_ppLines_lines hl
+  intro ln hln
+  obtain ⟨b, -, fb1, h1, hg1, -, -, -, p, pad1, W2, hsegs⟩ := hlines ln hln
+  obtain ⟨-, hx, -, -⟩ := W_formatBits_pos (show (cfgOf a bpg).bpg ≠ 0 from hb) h1
+  obtain ⟨pre, post, hv⟩ := W_segs_vis_text (cfgOf a bpg) (offsetWidth (cfgOf a bpg) (W_data a bpg hasLen)) p fb1.x pad1
+    (W_sec (cfgOf a bpg) W2 b)
+  refine ⟨pre, post, ?_⟩
+  rw [W_visible_eq, hsegs, hv, hg1]
+  conv_lhs => rw [hx]
+  rfl
 
 /-- `pp_no_escape_when_no_color`: with colour off nothing but the visible text is written, and it contains no
     escape character (unless the caller's own separator does). -/
@@ -40,19 +63,84 @@ theorem pp_no_escape_when_no_color (a : PPArgs) (lay : Layout) (h : pp a = .ok l
     (hsep : '\x1b' ∉ a.sep) :
     (∀ ln ∈ lay.lines, ln.emitted = ln.visible ∧ '\x1b' ∉ ln.emitted) ∧
     (∀ s, lay.trailing = some s → '\x1b' ∉ s) := by
-  sorry
+  cases ht : processTokens a.t1 a.t2 with
+  | error e => simp [pp, ht] at h
+  | ok r =>
+    obtain ⟨bpg, hasLen⟩ := r
+    obtain ⟨hl, htr⟩ := W_pp_ok ht h
+    obtain ⟨m, -, -, hlines⟩ := W_ppLines_lines hl
+    constructor
+    · intro ln hln
+      obtain ⟨b, -, fb1, h1, hg1, -, -, -, p, pad1, W2, hsegs⟩ := hlines ln hln
+      have hem : ln.emitted = ln.visible := by
+        rw [W_emitted_eq, W_visible_eq, hsegs]
+        exact W_segs_emit_nocolour _ hc _ _ _ _ _
+      refine ⟨hem, ?_⟩
+      rw [hem, W_visible_eq, hsegs]
+      intro hmem
+      rcases W_segs_vis_mem _ _ _ _ _ _ _ hmem with h' | h' | h' | h' | ⟨x2, pad2, hsec, h'⟩
+      · exact absurd h' (by decide)
+      · exact absurd h' (by decide)
+      · exact W_esc_natDec _ h'
+      · exact W_esc_formatBits h1 hsep h'
+      · obtain ⟨f2, fb2, -, h2, rfl⟩ := W_sec_some hsec
+        exact W_esc_formatBits h2 hsep h'
+    · intro s hs
+      rw [htr] at hs
+      split at hs
+      · simp only [Option.some.injEq] at hs
+        rw [← hs]; exact W_esc_strFormAlg _ _
+      · simp at hs
 
 /-- With colour on, the escape sequences are the only difference: what a terminal shows does not depend on colour. -/
 theorem pp_visible_colour_independent (a : PPArgs) :
     (pp a).map (fun lay => (lay.lines.map (·.visible), lay.lines.map (·.groups1), lay.lines.map (·.groups2), lay.trailing))
     = (pp { a with colour := false }).map
         (fun lay => (lay.lines.map (·.visible), lay.lines.map (·.groups1), lay.lines.map (·.groups2), lay.trailing)) := by
-  sorry
+  simp only [pp]
+  cases processTokens a.t1 a.t2 with
+  | error e => rfl
+  | ok r =>
+    obtain ⟨bpg, hasLen⟩ := r
+    simp only
+    have hc := W_ppLines_colour (cfgOf a bpg)
+      (if trailingLen a.l.length bpg hasLen = 0 then a.l else dataPart a.lsb0 a.l (trailingLen a.l.length bpg hasLen))
+    have e : cfgOf { a with colour := false } bpg = { cfgOf a bpg with colour := false } := rfl
+    rw [e]
+    generalize ppLines (cfgOf a bpg) _ = A at hc ⊢
+    generalize ppLines { cfgOf a bpg with colour := false } _ = B at hc ⊢
+    cases A <;> cases B <;> simp only [Except.map, Except.error.injEq, Except.ok.injEq, reduceCtorEq] at hc ⊢
+    · exact hc
+    · rename_i l1 l2
+      have h1 := congrArg (List.map (·.1)) hc
+      have h2 := congrArg (List.map (·.2.1)) hc
+      have h3 := congrArg (List.map (·.2.2)) hc
+      simp only [List.map_map] at h1 h2 h3
+      exact Prod.ext h1 (Prod.ext h2 (Prod.ext h3 rfl))
 
 /-- The internal `assert`s and divisions of `_pp` are unreachable: `pp` fails only with `ValueError`
     (an invalid format, or a value the format cannot represent). -/
 theorem pp_fails_only_with_value_error (a : PPArgs) (e : Err) (h : pp a = .error e) : e = .value := by
-  sorry
+  cases ht : processTokens a.t1 a.t2 with
+  | error e' =>
+    simp only [pp, ht, Except.error.injEq] at h
+    subst h; exact W_processTokens_error ht
+  | ok r =>
+    obtain ⟨bpg, hasLen⟩ := r
+    obtain ⟨m, hm, hm0, -⟩ := W_maxBits_ok ht (offsetWidth (cfgOf a bpg) (W_data a bpg hasLen))
+    cases hl : ppLines (cfgOf a bpg) (W_data a bpg hasLen) with
+    | error e' =>
+      have : pp a = .error e' := by
+        unfold W_data at hl
+        simp only [pp, ht, hl]
+      rw [this] at h
+      simp only [Except.error.injEq] at h
+      subst h
+      exact W_ppLines_error hm hm0 hl
+    | ok lines =>
+      unfold W_data at hl
+      simp only [pp, ht, hl] at h
+      simp at h
 
 /-- `pp` succeeds whenever the tokens are valid, each format can represent the data, and an explicit group is a
     whole number of digits of each format. -/
@@ -62,7 +150,25 @@ theorem pp_succeeds (a : PPArgs) (bpg : Nat) (hasLen : Bool)
     (h2 : ∀ t2, a.t2 = some t2 →
       (ppData a.lsb0 a.l (trailingLen a.l.length bpg hasLen)).length % t2.fmt.bpc = 0 ∧ bpg % t2.fmt.bpc = 0) :
     ∃ lay, pp a = .ok lay := by
-  sorry
+  obtain ⟨m, hm, hm0, hg, hu⟩ := W_maxBits_ok ht (offsetWidth (cfgOf a bpg) (W_data a bpg hasLen))
+  rw [← (W_data_length a bpg hasLen).2] at h1
+  have hlines : ∃ lines, ppLines (cfgOf a bpg) (W_data a bpg hasLen) = .ok lines := by
+    apply W_ppLines_succeeds hm hm0
+    · exact W_chunk_formats _ _ _ _ _ _ hm0 h1.1 h1.2 hg (fun h0 => (hu h0).1)
+    · intro f2 hf2
+      simp only [cfgOf] at hf2
+      rcases ht2 : a.t2 with _ | t2
+      · rw [ht2] at hf2; simp at hf2
+      · rw [ht2] at hf2
+        simp only [Option.map, Option.some.injEq] at hf2
+        subst hf2
+        have h2' := h2 t2 ht2
+        rw [← (W_data_length a bpg hasLen).2] at h2'
+        exact W_chunk_formats _ _ _ _ _ _ hm0 h2'.1 h2'.2 hg (fun h0 => (hu h0).2 t2 ht2)
+  obtain ⟨lines, hl⟩ := hlines
+  unfold W_data at hl
+  simp only [pp, ht, hl]
+  exact ⟨_, rfl⟩
 
 /-! ### non-vacuity -/
 
